@@ -95,6 +95,7 @@ def monitor(lines, impl, which):
     # C06, handler clocks: which (process, message type) pairs carry a clock reading (`K:` actions; not also used by `R:`)
     ktips, rtips, skew = set(), set(), {}
     where = {}
+    unread = {}         # proc -> local messages sent (trace) and not yet returned by a reading call
     for l in lines:
         if l.startswith("rule "):
             ws = l.split()
@@ -110,14 +111,25 @@ def monitor(lines, impl, which):
             skew[w[1]] = val(w[2])
         if w[0] == "proc" and len(w) >= 3 and ret == "ok":
             where[w[1]] = w[2]          # the node the process was (re-)created on
+        if ret == "obs" and which in ("C17", "C06"):
+            # local outboxes: exactly the local sends of the trace that no call has returned yet, in order
+            for l in entries:
+                mo = re.match(r"P (\S+) \S+ st=\S* out=(\S*) s=", l)
+                if mo and mo.group(1) in unread:
+                    want = "[" + ",".join(unread[mo.group(1)]) + "]"
+                    if mo.group(2) != want:
+                        return (f"the local outbox of {mo.group(1)} is {mo.group(2)[:200]}, but the local messages it sent (trace) that no "
+                                f"read_local_messages / step_until_local_message* call has returned yet are {want[:200]}")
         if ret == "obs":
             for l in entries:
                 if l.startswith("Nd ") and " api=0" in l:
                     return ("a System-level accessor (node_is_crashed, proc_node_is_crashed, proc_node_name, sent_message_count, "
                             "received_message_count, local_outbox, event_log, process_names) disagrees with the node-level accessor it "
                             f"is documented to delegate to: {l}")
-            if which == "C07":
+            if which in ("C07", "C08"):
                 # the timer contract judged on each process's event log: requested operations and firings in order
+                # (C08: the event log of a process re-created after a recovery starts empty, so a timer that was pending when its
+                # node crashed shows up as a firing nobody asked for)
                 for l in entries:
                     m = re.match(r"P (\S+) (\S+) st=\S* out=\S* s=\d+ r=\d+ (?:iss=\d+ )?(?:issok=\d )?log=\[(.*)\]$", l)
                     if not m:
@@ -136,6 +148,8 @@ def monitor(lines, impl, which):
                                 return (f"process {m.group(1)}: timer {name} fired although no instance of it is pending by the contract "
                                         f"(it was cancelled, overridden, already fired, or set_timer_once was ignored)")
                             pend.discard(name)
+                    if which == "C08":
+                        continue        # (the lost-timer half is about C07: a crash legitimately discards pending timers)
                     qm = [x for x in entries if x.startswith("Net ")]
                     drained = bool(qm) and " Q=[] " in qm[0] + " "
                     ndm = {mm.group(1): mm.group(2) for mm in (re.match(r"Nd (\S+) crashed=(\d)", x) for x in entries) if mm}
@@ -175,6 +189,27 @@ def monitor(lines, impl, which):
             continue
         if t is None:
             continue
+        if which in ("C17", "C06"):
+            if w[0] == "proc" and len(w) >= 3 and ret == "ok":
+                unread[w[1]] = []           # a fresh process starts with an empty outbox
+            for kd, ff in entries:
+                if kd == "LS" and len(ff) >= 4 and ff[1].count("-") == 2:
+                    unread.setdefault(ff[1].split("-")[1], []).append(",".join(ff[2:]))
+            got = None
+            if w[0] == "read" and ret.startswith("["):
+                got = ret
+            elif w[0] in ("until_local", "until_local_max", "until_local_timeout") and ret.startswith("Ok["):
+                got = ret[2:]
+            if got is not None and w[1] in unread:
+                want = "[" + ",".join(unread[w[1]]) + "]"
+                if got != want:
+                    return (f"`{op}` returned {got[:200]}, but the local messages {w[1]} sent (trace) that no earlier call has returned are "
+                            f"{want[:200]}")
+                unread[w[1]] = []
+            elif w[0] == "until_local_timeout" and ret == "Err" and prev_clock is not None:
+                # giving up must not consume anything (checked at the next observation) and happens only when the deadline has
+                # passed or nothing is left to do
+                pass
         if which == "C06":
             # the stepping functions process what they document and stop as soon as their condition holds
             inv = [i for i, (kd, _) in enumerate(entries) if kd in ("MR", "TF")]     # handler invocations of this call
